@@ -33,7 +33,7 @@ pub enum Prog {
     TwoCommits(u8),
 }
 
-#[derive(Clone, Debug, PartialEq)]
+#[derive(Clone, Debug, PartialEq, serde::Serialize, serde::Deserialize)]
 pub enum Ev {
     Committed(Vec<Operation>),
     Undone(bool, Vec<Operation>),
@@ -45,6 +45,9 @@ pub enum Ev {
 #[derive(Clone, Debug, serde::Serialize, serde::Deserialize)]
 pub struct Sc17 {
     pub progs: Vec<Prog>,
+    /// handles that live in a child process of their own (the others are threads of this one)
+    #[serde(default)]
+    pub procs: Vec<bool>,
     #[serde(skip)]
     pub proto: std::sync::OnceLock<PathBuf>,
 }
@@ -61,7 +64,11 @@ impl Drop for Ctx17 {
 
 impl Sc17 {
     pub fn new(progs: Vec<Prog>) -> Self {
-        Sc17 { progs, proto: Default::default() }
+        Sc17 { procs: vec![false; progs.len()], progs, proto: Default::default() }
+    }
+
+    pub fn with_procs(progs: Vec<Prog>, procs: Vec<bool>) -> Self {
+        Sc17 { progs, procs, proto: Default::default() }
     }
 
     /// The starting database: task 0 exists, completed, with counter = 0; everything unsynced.
@@ -162,6 +169,56 @@ async fn run_prog(dir: PathBuf, prog: Prog, gate: GateH) -> Vec<Ev> {
     log
 }
 
+/// Child side of a process-level handle: run the program with a gate that talks to the parent's
+/// scheduler over stdin/stdout, then print the events.
+pub fn worker(args: &[String]) -> i32 {
+    let dir = PathBuf::from(&args[0]);
+    let prog: Prog = serde_json::from_str(&args[1]).expect("program");
+    let log = crate::util::block_on(run_prog(dir, prog, GateH::pipe()));
+    println!("D {}", serde_json::to_string(&log).unwrap());
+    0
+}
+
+/// Parent side: a task that stands for the child process under the scheduler.
+async fn proxy_task(dir: PathBuf, prog: Prog, gate: GateH) -> Vec<Ev> {
+    use std::io::{BufRead, BufReader, Write};
+    let exe = std::env::current_exe().expect("current exe");
+    let mut child = match std::process::Command::new(exe)
+        .arg("worker-c17")
+        .arg(&dir)
+        .arg(serde_json::to_string(&prog).unwrap())
+        .stdin(std::process::Stdio::piped())
+        .stdout(std::process::Stdio::piped())
+        .stderr(std::process::Stdio::null())
+        .spawn()
+    {
+        Ok(c) => c,
+        Err(e) => return vec![Ev::Failed(format!("spawn: {e}"))],
+    };
+    let mut to_child = child.stdin.take().unwrap();
+    let mut from_child = BufReader::new(child.stdout.take().unwrap());
+    let mut result = vec![Ev::Failed("child ended without a result".into())];
+    loop {
+        let mut line = String::new();
+        // the child runs freely until its next storage call; this task is the running one meanwhile
+        if from_child.read_line(&mut line).unwrap_or(0) == 0 {
+            break;
+        }
+        if let Some(label) = line.strip_prefix("P ") {
+            let _ = gate.pass(label.trim_end().to_string()).await;
+            if to_child.write_all(b"G\n").and_then(|_| to_child.flush()).is_err() {
+                break;
+            }
+        } else if let Some(j) = line.strip_prefix("D ") {
+            result = serde_json::from_str(j.trim_end()).unwrap_or_else(|e| vec![Ev::Failed(format!("child result: {e}"))]);
+            break;
+        }
+    }
+    drop(to_child);
+    let _ = child.wait();
+    result
+}
+
 /// Is the database's write lock free? (harness probe connection, no waiting)
 fn lock_free(dir: &std::path::Path) -> bool {
     thread_local! { static CON: std::cell::RefCell<Option<(PathBuf, rusqlite::Connection)>> = const { std::cell::RefCell::new(None) }; }
@@ -196,7 +253,11 @@ impl Scenario for Sc17 {
         copy_dir(self.proto(), &dir);
         let mut futs: Vec<TaskFut<Vec<Ev>>> = vec![];
         for (i, p) in self.progs.iter().enumerate() {
-            futs.push(Box::pin(run_prog(dir.clone(), *p, gates[i].clone())));
+            if self.procs.get(i).copied().unwrap_or(false) {
+                futs.push(Box::pin(proxy_task(dir.clone(), *p, gates[i].clone())));
+            } else {
+                futs.push(Box::pin(run_prog(dir.clone(), *p, gates[i].clone())));
+            }
         }
         (Ctx17 { dir }, futs)
     }
@@ -321,7 +382,13 @@ fn scenarios(tier: Tier) -> Vec<Sc17> {
         Sc17::new(vec![CommitNew(1), CommitNew(2), CommitNew(3)]),
         Sc17::new(vec![Reopen0, Reopen0, CommitNew(1)]),
     ];
+    // handles in separate processes (SQLite's cross-process file locking instead of its in-process one)
+    v.push(Sc17::with_procs(vec![CommitNew(1), CommitNew(2)], vec![true, true]));
+    v.push(Sc17::with_procs(vec![Reopen0, Reopen0], vec![true, true]));
+    v.push(Sc17::with_procs(vec![CommitThenUndo(1), ReadModifyWrite], vec![true, false]));
     if tier == Tier::Thorough {
+        v.push(Sc17::with_procs(vec![TwoCommits(1), TwoCommits(2), Rebuild(false)], vec![true, true, true]));
+        v.push(Sc17::with_procs(vec![Reopen0, Reopen0, CommitNew(1)], vec![true, false, true]));
         v.push(Sc17::new(vec![CommitThenUndo(1), CommitThenUndo(2), Rebuild(true)]));
         v.push(Sc17::new(vec![TwoCommits(1), ReadModifyWrite, Reopen0]));
         v.push(Sc17::new(vec![CommitNew(1), CommitNew(2), CommitNew(3), CommitNew(4)]));
@@ -334,7 +401,7 @@ fn scenarios(tier: Tier) -> Vec<Sc17> {
 pub fn run(opts: &Opts) -> i32 {
     let rep = Report::new("C17", "model_checking", opts);
     rep.set("exhaustive", true);
-    rep.set("rule", "2-6 real SqliteStorage handles (each with its own actor thread) on one database directory run programs {commit a new pending task, read-modify-write, re-open a completed task, commit + undo, rebuild the working set, read, two commits}; every StorageTxn call of every handle is a scheduling point; a handle may start a transaction only when a harness probe connection (busy_timeout 0, BEGIN IMMEDIATE) finds the write lock free, so the code's real locking decides which interleavings exist; all interleavings are executed; afterwards a fresh handle audits: every successful commit present contiguously and in order, operation count, replay of stored operations = stored tasks, working set without duplicates or lost entries; non-trivial = executions with >= 2 successful commits");
+    rep.set("rule", "2-6 real SqliteStorage handles (each with its own actor thread; in some scenarios each in a child process of its own, driven over a pipe) on one database directory run programs {commit a new pending task, read-modify-write, re-open a completed task, commit + undo, rebuild the working set, read, two commits}; every StorageTxn call of every handle is a scheduling point; a handle may start a transaction only when a harness probe connection (busy_timeout 0, BEGIN IMMEDIATE) finds the write lock free, so the code's real locking decides which interleavings exist; all interleavings are executed; afterwards a fresh handle audits: every successful commit present contiguously and in order, operation count, replay of stored operations = stored tasks, working set without duplicates or lost entries; non-trivial = executions with >= 2 successful commits");
     rep.assume("OS-thread preemption inside the actor thread and inside SQLite is not enumerated: only the order in which handles obtain the write lock, and the position of their individual storage calls relative to other handles' transactions");
     let deadline = std::time::Instant::now() + std::time::Duration::from_secs_f64(opts.budget_s);
     let scs = scenarios(opts.tier);
@@ -350,7 +417,7 @@ pub fn run(opts: &Opts) -> i32 {
             rep.set("exhaustive", false);
             rep.add("scenarios_capped", 1);
         }
-        println!("[C17] {:?}: {} schedules, {} distinct outcomes, capped={} ({:.1}s)", sc.progs, st.schedules, st.outcomes.len(), st.capped, rep.elapsed());
+        println!("[C17] {:?} procs={:?}: {} schedules, {} distinct outcomes, capped={} ({:.1}s)", sc.progs, sc.procs, st.schedules, st.outcomes.len(), st.capped, rep.elapsed());
         if let Some(tr) = st.sample_traces.first() {
             rep.sample(json!({"programs": sc.progs, "schedule": tr.iter().map(|(c, l)| format!("handle{}: {}", c.task, l)).collect::<Vec<_>>()}));
         }
@@ -358,7 +425,7 @@ pub fn run(opts: &Opts) -> i32 {
             rep.violation(Violation::new(
                 format!("{}:{:?}", f.what.split(':').next().unwrap_or(""), sc.progs),
                 f.what.clone(),
-                json!({"kind": "c17-schedule", "programs": sc.progs, "schedule": super::c02::trace_to_json(&f.trace), "observed": f.what}),
+                json!({"kind": "c17-schedule", "programs": sc.progs, "procs": sc.procs, "schedule": super::c02::trace_to_json(&f.trace), "observed": f.what}),
             ));
         }
     }
@@ -373,7 +440,8 @@ pub fn run(opts: &Opts) -> i32 {
 
 pub fn replay(case: &serde_json::Value) -> Result<(), String> {
     let progs: Vec<Prog> = serde_json::from_value(case["programs"].clone()).map_err(|e| e.to_string())?;
-    let sc = Sc17::new(progs);
+    let procs: Vec<bool> = serde_json::from_value(case["procs"].clone()).unwrap_or_default();
+    let sc = if procs.is_empty() { Sc17::new(progs) } else { Sc17::with_procs(progs, procs) };
     let choices: Vec<Choice> = case["schedule"].as_array().unwrap().iter().map(|e| serde_json::from_value(e["choice"].clone()).unwrap()).collect();
     let (trace, r) = crate::explore::sched::replay(&sc, &choices)?;
     for (c, l) in &trace {
